@@ -40,9 +40,8 @@ def main():
             kind = "ref"
             if o["prog"].startswith("caseE/") and "prescribes no clause" in p["msg"] and "the machine runs [('set'" in p["msg"]:
                 kind = "empty-body-provisional"
-            rep.failed_ob(Finding("C08", "C08/ref/CaseNode.convert/runs-the-matching-clause", f"{o['prog']}|{' '.join(o['flags'])}|{kind}",
+            rep.bounded_violation(Finding("C08", "C08/ref/CaseNode.convert/runs-the-matching-clause", f"{o['prog']}|{' '.join(o['flags'])}|{kind}",
                                   f"{o['prog']} [{' '.join(o['flags'])}]: {p['msg']}", replay={"program": o["prog"], "source": srcs.get(o["prog"]), "flags": o["flags"]}, replayed=True))
-            rep.obligations -= 1
         else:
             nref += 1
             steps += p["n"]
